@@ -28,7 +28,7 @@ def implMergeFixed : Bool := true
 
 /-- Which variant of the list parsers of args.go / env.go the tie compares against.
 FLIP to `true` once fixes/C32-separators-only-narrow.patch is committed in /repo. -/
-def implKeepUnusable : Bool := false
+def implKeepUnusable : Bool := true
 
 def unhexL (s : String) : List Char := ((unhex s).getD []).map fun b => Char.ofNat b.toNat
 
